@@ -32,12 +32,12 @@ const SURFACES: [(&str, &str); 8] = [
     ("ab", "ab"),
 ];
 const NUMS: [(&str, u16, u16, i16); 5] = [("0", 0, 1, 0), ("1", 1, 0, -1), ("1", 1, 1, 32767), ("0", 0, 0, -32768), ("\"1\"", 1, 1, 7)];
-const TAILS: [&str; 8] = ["f", "f,g", "\"x,y\",z", "f\"q", "", "*", "\"l1\nl2\",w", " sp ,, "];
+const TAILS: [&str; 10] = ["f", "f,", "\"x,y\",z", "f\"q", "", ",", "f,g", "*", "\"l1\nl2\",w", " sp ,, "];
 const TERMS: [&str; 4] = ["\n", "\r\n", "", "\n\n"];
 
 fn rows(tier: Tier, three: bool) -> Vec<RowSpec> {
     let mut out = vec![];
-    let (ns, nn, nt, nm) = if three { (5, 2, 4, 3) } else { tier.pick((7, 4, 6, 4), (8, 5, 8, 4)) };
+    let (ns, nn, nt, nm) = if three { (5, 2, 4, 3) } else { tier.pick((7, 4, 6, 4), (8, 5, 10, 4)) };
     for (rs, s) in SURFACES.iter().take(ns) {
         for (lr, l, r, c) in NUMS.iter().take(nn) {
             for t in TAILS.iter().take(nt) {
